@@ -25,6 +25,19 @@ META = {
 }
 
 
+# witnesses of the listed findings (from Props/C10.v), re-confirmed on the implementation on every run
+WITNESSES = [
+    b"xxxxxxxxxx8=FIX.4.4\x019=15\x0135=0\x0110=212\x01",                 # consumed 47 of 37
+    b"8=FIX.4.4\x019=5\x0135=0\x0158=7\x0110=190\x011=evil\x01",           # field after CheckSum accepted
+    b"8=FIX.4.4\x019=-1000\x0135=0\x0110=092\x01",                        # negative consumed length, message returned
+    b"8=FIX.4.4\x019=2\x0135=0\x0158=hello\x0110=095\x01",                # BodyLength 2 for a 14-byte body accepted
+    b"8=FIX.4.4\x019=12\x0135=0\x0158=299\x0110= 32\x01",                 # lenient CheckSum spelling
+    b"8=FIX.4.4\x019=abc\x0135=0\x0110=000\x01",
+    b"8=FIX.4.4\x019=5\x0135=0\x01abc=1\x0110=000\x01",
+    b"8=FIX.4.4\x019=5\x0135=J\x0170=a\x0178=1\x0179=A\x0170=b\x0110=000\x01",
+]
+
+
 def mutations(rng, f, thorough):
     out = []
     positions = range(len(f)) if thorough else sorted(rng.sample(range(len(f)), min(len(f), 24)))
@@ -134,12 +147,6 @@ def classify_accept(orig, kind, pos, mutated):
         return "D8-nul-keeps-checksum"
     if pos > ck + 3:
         return "D8-checksum-field-lenient"
-    if kind in ("ins", "del", "sub"):
-        # BodyLength is never compared with the position of the CheckSum field
-        s = orig.find(b"\x019=")
-        e = orig.find(b"\x01", s + 1)
-        if s < pos <= e:
-            return "D8-bodylength-unchecked"
     return None
 
 
@@ -189,6 +196,8 @@ def run(ctx):
         if f and len(f) < 400 and not cc.marker_beyond_start(f):
             corpus_frames.append(f)
     cases = []   # (what, origin frame or None, kind, pos, bytes)
+    for w in WITNESSES:
+        cases.append(("witness", None, None, None, w))
     for _ in range(ctx.scale(1500, 20000)):
         cases.append(("random", None, None, None, bytes(rng.randrange(256) for _ in range(rng.randrange(0, 60)))))
     for _ in range(ctx.scale(300, 3000)):
